@@ -106,6 +106,9 @@ MUTANTS = [
     ("signed integrated-flux error (seed C03c)", "AegeanTools/fitting.py",
      "        source.err_int_flux = abs(source.int_flux * np.sqrt(sqerr))",
      "        source.err_int_flux = source.int_flux * np.sqrt(sqerr)", "C03-R11"),
+    ("island field takes the component index", "AegeanTools/source_finder.py",
+     "            source.island = isle_num\n            source.source = j",
+     "            source.island = j\n            source.source = j", "C03-R2"),
 ]
 TWINS = [
     ("stride reordered", "AegeanTools/source_finder.py",
@@ -328,6 +331,25 @@ def r2(ctx, prog):
     ctx.check("C03-R2", rc, "component number store", ok,
               "components of an island must be numbered 0..n-1 by the "
               "range(components) index", node=st[0] if st else rc.node)
+    # the island number of every source built here is the island's own
+    from .c08 import _resolve_local
+    ist = [s for s in walk_no_nested(rc.node) if isinstance(s, ast.Assign)
+           and isinstance(s.targets[0], ast.Attribute) and
+           s.targets[0].attr == "island"]
+    for s in ist:
+        v = s.value
+        for _ in range(3):
+            if isinstance(v, ast.Name):
+                v = _resolve_local(rc.node, v)
+        ctx.check("C03-R2", rc, "island number store " + norm(s),
+                  isinstance(v, ast.Attribute) and v.attr == "isle_num",
+                  "the island field must be the island's own number "
+                  "(island_data.isle_num); found %s: sources of different "
+                  "islands share (island, source) pairs" % norm(s.value),
+                  node=s)
+    if len(ist) < 1:
+        raise AnalysisError("C03-R2: no store to <source>.island in "
+                            "result_to_components")
     pref = [s for s in walk_no_nested(rc.node) if isinstance(s, ast.Assign)
             and norm(s.targets[0]) == "prefix"]
     ctx.check("C03-R2", rc, "parameter prefix uses the same index",
